@@ -115,6 +115,39 @@ Proof.
 Qed.
 Print Assumptions C14_prefix_is_wrapped_sums.
 
+(* ---- sc_shmem_allgather with DIFFERENT send and receive signatures (data = bytes) ------------------------------------------------ *)
+(* snd = (sendcount, size of sendtype), rcv = (recvcount, size of recvtype); `contrib q` = the bytes of rank q's send buffer; room = bytes
+   of the array.  shmem_allgather_sig = None when some MPI call of the operation is erroneous (signatures that do not match, truncation,
+   overrun of the node buffer or of the array).  For EVERY flavour, reading rank, P = nn * ppn and EVERY pair of signatures describing the
+   same number of bytes: every call is defined and the array holds the send buffers of ranks 0 .. P-1 in rank order *)
+Theorem C14_allgather_sig_rank_order : forall nn ppn, 0 < ppn -> forall contrib (snd rcv : sig) room,
+  sig_bytes snd = sig_bytes rcv ->
+  (forall q, q < nn * ppn -> length (contrib q) = sig_bytes snd) ->
+  nn * ppn * sig_bytes rcv <= room ->
+  forall f r, r < nn * ppn ->
+  shmem_allgather_sig (nn * ppn) (comms_explicit nn ppn) contrib snd rcv room f r = Some (rank_order (nn * ppn) contrib).
+Proof. exact allgather_sig_explicit. Qed.
+Print Assumptions C14_allgather_sig_rank_order.
+
+(* for ANY node communicators: whenever all calls are defined the result is the one of the signature-free specification *)
+Theorem C14_allgather_sig_refines : forall P comms contrib (snd rcv : sig) room f r x,
+  shmem_allgather_sig P comms contrib snd rcv room f r = Some x -> x = shmem_allgather P comms f contrib r.
+Proof. exact allgather_sig_refines. Qed.
+Print Assumptions C14_allgather_sig_refines.
+
+Theorem C14_allgather_sig_unattached : forall P contrib (snd rcv : sig) room f r, sig_bytes snd = sig_bytes rcv ->
+  (forall q, q < P -> length (contrib q) = sig_bytes snd) -> P * sig_bytes rcv <= room ->
+  shmem_allgather_sig P comms_none contrib snd rcv room f r = Some (rank_order P contrib).
+Proof. exact allgather_sig_unattached. Qed.
+Print Assumptions C14_allgather_sig_unattached.
+
+(* the precondition cannot be dropped: signatures describing different numbers of bytes make an MPI call erroneous *)
+Theorem C14_allgather_sig_mismatch_undefined : forall P comms contrib (snd rcv : sig) room f r, sig_bytes snd <> sig_bytes rcv ->
+  (shared_on comms f r = true -> forall nc, comms (writer_of comms f r) = Some nc -> inter nc <> []) ->
+  shmem_allgather_sig P comms contrib snd rcv room f r = None.
+Proof. exact allgather_sig_mismatch_undefined. Qed.
+Print Assumptions C14_allgather_sig_mismatch_undefined.
+
 (* a shared copy replicates the source on all ranks *)
 Theorem C14_memcpy : forall nn ppn f (src : nat -> list Z) r, (forall q q', src q = src q') ->
   shmem_memcpy (comms_explicit nn ppn) f src r = src r.
@@ -318,6 +351,13 @@ Example C14_ex_two_rounds_on_3 :
   = Some ([2; 2; 2], [SharedLock; SharedLock; SharedLock], 2, 22%Z, (11%Z, 22%Z), false).
 Proof. exact two_rounds_on_3. Qed.
 
+(* 4 ranks in 2 nodes, window flavour, every rank sends 2 x 4 bytes and the array is described as 1 x 8 bytes per rank *)
+Example C14_ex_allgather_sig :
+  let contrib := fun q => map (fun b => Z.of_nat (10 * q + b)) (seq 0 8) in
+  shmem_allgather_sig 4 (comms_explicit 2 2) contrib (mk_sig 2 4) (mk_sig 1 8) 32 Window 3 = Some (rank_order 4 contrib)
+  /\ shmem_allgather_sig 4 (comms_explicit 2 2) contrib (mk_sig 2 4) (mk_sig 2 8) 64 Window 3 = None.
+Proof. vm_compute. split; reflexivity. Qed.
+
 Example C14_ex_dup_life :
   let s0 := mk_ls [] 0 None in
   let s1 := l_attach true true s0 in
@@ -467,9 +507,29 @@ Theorem C14_gen_prefix_window : forall recvbuf ts count (ms : list nat) (f : nat
   (prefix_common_prescan_gather_arg1 (zn count), prefix_common_prescan_gather_arg4 (zn count), prefix_common_prescan_gather_arg6) = (zn count, zn count, 0) /\
   prefix_common_prescan_memset_arg2 (zn count) ts = zn (length (repeat 0 count)) * ts /\
   prefix_common_prescan_allgather_arg3 recvbuf (zn count) ts = recvbuf + zn (length (repeat 0 count)) * ts /\
-  prefix_common_prescan_allgather_arg1 (zn count) isz = blk /\ prefix_common_prescan_allgather_arg4 (zn count) isz = blk /\
-  allgather_common_malloc_arg1 isz (zn count) ts = blk * ts /\
-  (allgather_common_gather_arg1 (zn count), allgather_common_gather_arg4 (zn count), allgather_common_gather_arg6) = (zn count, zn count, 0) /\
-  allgather_common_allgather_arg1 (zn count) isz = blk /\ allgather_common_allgather_arg4 (zn count) isz = blk.
+  prefix_common_prescan_allgather_arg1 (zn count) isz = blk /\ prefix_common_prescan_allgather_arg4 (zn count) isz = blk.
 Proof. exact gen_prefix_window. Qed.
 Print Assumptions C14_gen_prefix_window.
+
+(* sc_shmem_allgather has separate send and receive signatures snd = (sendcount, size of sendtype), rcv = (recvcount, size of recvtype);
+   k = size of the node.  Which of them enters which argument: basic flavours MPI_Allgather (sendcount, sendtype -> recvcount, recvtype) on comm;
+   window flavours: typesize = sc_mpi_sizeof (RECVTYPE), node buffer of intrasize * RECVCOUNT * typesize bytes (the room of the model's
+   node_buffer), MPI_Gather (SENDCOUNT, sendtype -> RECVCOUNT, recvtype) to root 0 of intranode, MPI_Allgather (SENDCOUNT * intrasize,
+   sendtype -> RECVCOUNT * intrasize, recvtype) on internode (the model's sig_times k snd, sig_times k rcv) *)
+Theorem C14_gen_allgather_sig : forall (snd rcv : sig) (k : nat) st rt cm ia ie,
+  zn (sg_count snd * k) < B31 -> zn (sg_count rcv * k) < B31 -> zn (k * (sg_count rcv * sg_size rcv)) < B31 ->
+  let sc := zn (sg_count snd) in let rc := zn (sg_count rcv) in let isz := zn k in let ts := zn (sg_size rcv) in
+  (allgather_basic_allgather_arg1 sc st rc rt isz ts cm ia ie, allgather_basic_allgather_arg2 sc st rc rt isz ts cm ia ie,
+   allgather_basic_allgather_arg4 sc st rc rt isz ts cm ia ie, allgather_basic_allgather_arg5 sc st rc rt isz ts cm ia ie,
+   allgather_basic_allgather_arg6 sc st rc rt isz ts cm ia ie) = (sc, st, rc, rt, cm) /\
+  allgather_common_sizeof_arg0 sc st rc rt isz ts cm ia ie = rt /\
+  allgather_common_malloc_arg1 sc st rc rt isz ts cm ia ie = zn (k * (sg_count rcv * sg_size rcv)) /\
+  (allgather_common_gather_arg1 sc st rc rt isz ts cm ia ie, allgather_common_gather_arg2 sc st rc rt isz ts cm ia ie,
+   allgather_common_gather_arg4 sc st rc rt isz ts cm ia ie, allgather_common_gather_arg5 sc st rc rt isz ts cm ia ie,
+   allgather_common_gather_arg6 sc st rc rt isz ts cm ia ie, allgather_common_gather_arg7 sc st rc rt isz ts cm ia ie) = (sc, st, rc, rt, 0, ia) /\
+  (allgather_common_allgather_arg1 sc st rc rt isz ts cm ia ie, allgather_common_allgather_arg2 sc st rc rt isz ts cm ia ie,
+   allgather_common_allgather_arg4 sc st rc rt isz ts cm ia ie, allgather_common_allgather_arg5 sc st rc rt isz ts cm ia ie,
+   allgather_common_allgather_arg6 sc st rc rt isz ts cm ia ie)
+  = (zn (sg_count (sig_times k snd)), st, zn (sg_count (sig_times k rcv)), rt, ie).
+Proof. exact gen_allgather_sig. Qed.
+Print Assumptions C14_gen_allgather_sig.
